@@ -16,8 +16,49 @@ RULE = ("model: every interleaving of two operations of any kind (three with fix
         "a routing entry the model keeps, the code has dropped and whose caller still listens is `effect:lost-route`")
 
 
+FLOOD = {"quick": 1200, "thorough": 3000}
+
+
+def extra(chk):
+    """A caller that lags: the server sends more items for one search than any plausible internal queue bound holds while the
+    caller does not read (another operation is served in between); then the caller reads everything. Validated like any trace:
+    every item, in the server's order (Routing)."""
+    import os, json
+    import common as C
+    n = FLOOD[chk.tier]
+    tr = os.path.join(chk.dir, "flood.ndjson")
+    rp = os.path.join(chk.dir, "flood.json")
+    C.harness("conn-run", ["flood", tr, n, rp])
+    rep = C.load(rp)
+    chk.report(rep, "flood")
+    if rep["counters"].get("flood_scripts_followed", 0) != 2:
+        chk.tool_error("the flood scripts were not followed to the end")
+    nev, diags, res = L.validate(chk, tr)
+    chk.traces += rep["evaluations"]
+    events = [json.loads(l) for l in open(tr)]
+    got = sum(1 for e in events if e["ev"] == "RetNext" and e.get("r") == "item")
+    if got < 2 * n and not diags:
+        chk.tool_error("flood: only %d items were handed out and the model did not object" % got)
+    owned = {}
+    for idx, tag in diags:
+        own = L.owner_of(tag, events, idx)
+        if own == "C01" or (isinstance(own, tuple) and "C01" in own):
+            owned.setdefault(tag, []).append(idx)
+        else:
+            chk.notes.append("flood: difference owned by %s: %s at event %d" % (L._own_str(own), tag, idx))
+    chk.extra.setdefault("trace_validation", []).append(dict(profile="flood", scenarios=2, events=nev, items_per_search=n + 5,
+                                                             diag_owned={k: len(v) for k, v in owned.items()}))
+    for tag, idxs in owned.items():
+        sd, k, j0 = L.scenario_of(events, idxs[0])
+        chk.problem("flood:" + tag, dict(count=len(idxs), event=events[idxs[0] - 1], before=events[max(j0, idxs[0] - 6):idxs[0] - 1]),
+                    "I->S: TraceLdapConn on the flood scenario")
+    chk.rule.append("flood: one direct and one adapted search with %d items sent while the caller does not read, a single operation "
+                    "served in between, 20 items read, 5 more and the final result sent, everything read to the end" % (n + 5))
+    os.remove(tr)
+
+
 def run(tier):
-    return L.run_lane("C01", tier, MC[tier], PROFILES[tier], RULE, scripts=SCRIPTS[tier], selftests=[("token", L.corrupt_token, "route")])
+    return L.run_lane("C01", tier, MC[tier], PROFILES[tier], RULE, scripts=SCRIPTS[tier], selftests=[("token", L.corrupt_token, "route")], extra=extra)
 
 
 def replay(path):
